@@ -163,7 +163,7 @@ type tlaPathEl struct {
 }
 
 func checkC20(c *core.Ctx) {
-	c.Rule = "errors are provoked by error-biased drivers from every entry point: the lexer (unlexable material), both parsers on single-token mutations of generated documents (named sources), the limited entry points under small limits, LoadSchema on fault-injected type systems split over several named files, Validate on fault-injected and type-blind documents under the default rule set and random subsets, VariableValues on defective values (including map keys with control characters, quotes and non-ASCII text, which end up in the error path). One record per error, checked by Errors_Trace for well-formedness (message, rule, locations, file, JSON shape); every error path must survive JSON encode/decode. Separately all 5461 paths over two names and two indices up to length 6 (printed by Errors_MC) are pushed through json.Marshal of an error and ast.Path.UnmarshalJSON under four name alphabets. Non-trivial = errors counted by distinct message template; distinct by (origin, message, location)"
+	c.Rule = "errors are provoked by error-biased drivers from every entry point: the lexer (unlexable material), both parsers on single-token mutations of generated documents (named sources), the limited entry points under small limits, LoadSchema on fault-injected type systems split over several named files, Validate on fault-injected and type-blind documents under the default rule set and random subsets, Validate under the default rule set after rules were registered through AddRule and ReplaceRule (of an unregistered name, of a specified rule; the registry is restored afterwards), VariableValues on defective values (including map keys with control characters, quotes and non-ASCII text, which end up in the error path). One record per error, checked by Errors_Trace for well-formedness (message, rule, locations, file, JSON shape); every error path must survive JSON encode/decode. Separately all 5461 paths over two names and two indices up to length 6 (printed by Errors_MC) are pushed through json.Marshal of an error and ast.Path.UnmarshalJSON under four name alphabets. Non-trivial = errors counted by distinct message template; distinct by (origin, message, location)"
 	c.Assumptions = []string{"the JSON shape is the response-format shape: only message, locations, path, extensions at top level, locations are {line, column} with positive numbers", "message templates are normalised by replacing quoted strings and numbers"}
 	devs := []string{}
 	if fs, err := core.LoadFindings(); err == nil {
@@ -371,6 +371,72 @@ func checkC20(c *core.Ctx) {
 					add("validate", e, vnames, []string{"q.graphql"}, fmt.Sprintf("document %q (rules without suggestions)", clip(q, 300)))
 				}
 			}()
+		}
+	}
+	// rules registered through the package's own registry (AddRule, ReplaceRule of a name that is not registered
+	// yet, ReplaceRule of a specified rule): errors of the DEFAULT rule set must still name their rule.
+	if hs, err := gqlparser.LoadSchema(&ast.Source{Name: "hand.graphql", Input: handRuleSDL}); err == nil {
+		probe := func(tag string) validator.RuleFunc {
+			return func(observers *validator.Events, addError validator.AddErrFunc) {
+				observers.OnField(func(walker *validator.Walker, field *ast.Field) {
+					if field.Name == "s" {
+						addError(validator.Message("verif probe %s", tag), validator.At(field.Position))
+					}
+				})
+			}
+		}
+		var replacedName string
+		var replacedFn validator.RuleFunc
+		for _, rl := range standardRules {
+			if rl.Name == "KnownDirectives" {
+				replacedName, replacedFn = rl.Name, rl.RuleFunc
+			}
+		}
+		func() {
+			validator.AddRule("VerifAdded", probe("added"))
+			validator.ReplaceRule("VerifReplacedNew", probe("replaced-new"))
+			if replacedFn != nil {
+				validator.ReplaceRule(replacedName, probe("replaced-existing"))
+			}
+			defer func() {
+				validator.RemoveRule("VerifAdded")
+				validator.RemoveRule("VerifReplacedNew")
+				if replacedFn != nil {
+					validator.ReplaceRule(replacedName, replacedFn)
+				}
+			}()
+			names := []string{"VerifAdded", "VerifReplacedNew"}
+			for _, rl := range standardRules {
+				names = append(names, rl.Name)
+			}
+			want := map[string]string{"verif probe added": "VerifAdded", "verif probe replaced-new": "VerifReplacedNew", "verif probe replaced-existing": replacedName}
+			for _, q := range []string{`{ s }`, `{ s a { nope } @nodir }`, `query Q($u: Int) { k: s ...F } fragment F on Query { s @skip(if: 3) }`} {
+				doc, perr := parser.ParseQuery(&ast.Source{Name: "q.graphql", Input: q})
+				if perr != nil {
+					continue
+				}
+				seen := map[string]bool{}
+				for _, e := range validator.Validate(hs, doc) {
+					add("validate", e, names, []string{"q.graphql"}, fmt.Sprintf("document %q under the default rule set after AddRule / ReplaceRule", q))
+					if r, ok := want[e.Message]; ok {
+						seen[e.Message] = true
+						if e.Rule != r {
+							c.Violation(fmt.Sprintf("error %q of the rule registered as %q carries rule %q; document %q", e.Message, r, e.Rule, q), map[string]any{"message": e.Message, "registered": r, "rule": e.Rule, "document": q})
+						}
+					}
+				}
+				for m, r := range want {
+					if !seen[m] && r != "" {
+						c.Violation(fmt.Sprintf("the rule registered as %q did not run under the default rule set; document %q", r, q), map[string]any{"registered": r, "document": q})
+					}
+				}
+			}
+		}()
+		// the registry is as it was: no probe error any more
+		if doc, perr := parser.ParseQuery(&ast.Source{Name: "q.graphql", Input: "{ s }"}); perr == nil {
+			if errs := validator.Validate(hs, doc); len(errs) > 0 {
+				c.Violation(fmt.Sprintf("after RemoveRule / ReplaceRule back, the default rule set still reports %v on { s }", errs), map[string]any{"errors": fmt.Sprint(errs)})
+			}
 		}
 	}
 	// validation and coercion on a few schemas
